@@ -204,8 +204,32 @@ func (o *Order) Finalize(ctx context.Context, db DB, csr *x509.CertificateReques
 		}
 	}
 
-	// canonicalize the CSR to allow for comparison
+	// TODO: support for multiple identifiers?
+	var permanentIdentifier string
+	for i := range o.Identifiers {
+		if o.Identifiers[i].Type == PermanentIdentifier {
+			permanentIdentifier = o.Identifiers[i].Value
+			// the first (and only) Permanent Identifier that gets added to the certificate
+			// should be equal to the Subject Common Name if it's set. If not equal, the CSR
+			// is rejected, because the Common Name hasn't been challenged in that case. This
+			// could result in unauthorized access if a relying system relies on the Common
+			// Name in its authorization logic.
+			if csr.Subject.CommonName != "" && csr.Subject.CommonName != permanentIdentifier {
+				return NewError(ErrorBadCSRType, "CSR Subject Common Name does not match identifiers exactly: "+
+					"CSR Subject Common Name = %s, Order Permanent Identifier = %s", csr.Subject.CommonName, permanentIdentifier)
+			}
+			break
+		}
+	}
+
+	// canonicalize the CSR to allow for comparison. A Common Name that repeats
+	// the attested permanent identifier is not one of the DNS or IP names.
+	commonName := csr.Subject.CommonName
+	if permanentIdentifier != "" && commonName == permanentIdentifier {
+		csr.Subject.CommonName = ""
+	}
 	csr = canonicalize(csr)
+	csr.Subject.CommonName = commonName
 
 	// Template data
 	data := x509util.NewTemplateData()
@@ -239,27 +263,16 @@ func (o *Order) Finalize(ctx context.Context, db DB, csr *x509.CertificateReques
 	// Custom sign options passed to authority.Sign
 	var extraOptions []provisioner.SignOption
 
-	// TODO: support for multiple identifiers?
-	var permanentIdentifier string
-	for i := range o.Identifiers {
-		if o.Identifiers[i].Type == PermanentIdentifier {
-			permanentIdentifier = o.Identifiers[i].Value
-			// the first (and only) Permanent Identifier that gets added to the certificate
-			// should be equal to the Subject Common Name if it's set. If not equal, the CSR
-			// is rejected, because the Common Name hasn't been challenged in that case. This
-			// could result in unauthorized access if a relying system relies on the Common
-			// Name in its authorization logic.
-			if csr.Subject.CommonName != "" && csr.Subject.CommonName != permanentIdentifier {
-				return NewError(ErrorBadCSRType, "CSR Subject Common Name does not match identifiers exactly: "+
-					"CSR Subject Common Name = %s, Order Permanent Identifier = %s", csr.Subject.CommonName, permanentIdentifier)
-			}
-			break
-		}
-	}
-
 	var defaultTemplate string
 	if permanentIdentifier != "" {
 		defaultTemplate = x509util.DefaultAttestedLeafTemplate
+		// The other names of the CSR must be exactly the other identifiers of
+		// the order (none for an order with a permanent identifier only); a
+		// CSR that adds or omits a name is not accepted with the difference
+		// silently dropped.
+		if _, err := o.sans(csr); err != nil {
+			return err
+		}
 		data.SetSubjectAlternativeNames(x509util.SubjectAlternativeName{
 			Type:  x509util.PermanentIdentifierType,
 			Value: permanentIdentifier,
